@@ -341,6 +341,11 @@ pub fn load_managed_paths_from_snapshot(
     }
 
     for c in &snapshot.changes {
+        // Target manifests are bookkeeping recorded alongside the deployed files; they are never
+        // managed outputs themselves.
+        if crate::target_manifest::is_target_manifest_path(Path::new(&c.path)) {
+            continue;
+        }
         if c.op == "create" || c.op == "update" {
             out.insert(TargetPath {
                 target: c.target.clone(),
